@@ -31,6 +31,7 @@ enum Task {
     Join(usize, Box<Task>),
     AbortT(usize, Box<Task>),
     Yield(u64, Box<Task>),
+    AbortC(u64, Box<Task>),
     Both(u64, Expr, usize, u64, Expr, usize, Box<Task>),
     Race(u64, Expr, u64, Expr, usize, Box<Task>),
 }
@@ -80,6 +81,7 @@ impl Task {
             Task::Join(h, k) => format!("(TJoin {} {})", h, k.coq()),
             Task::AbortT(h, k) => format!("(TAbortT {} {})", h, k.coq()),
             Task::Yield(n, k) => format!("(TYield {} {})", n, k.coq()),
+            Task::AbortC(n, k) => format!("(TAbortC {} {})", n, k.coq()),
             Task::Both(t1, e1, x1, t2, e2, x2, k) => format!("(TBoth {} {} {} {} {} {} {})", t1, e1.coq(), x1, t2, e2.coq(), x2, k.coq()),
             Task::Race(t1, e1, t2, e2, x, k) => format!("(TRace {} {} {} {} {} {})", t1, e1.coq(), t2, e2.coq(), x, k.coq()),
         }
@@ -87,7 +89,7 @@ impl Task {
     fn size(&self) -> usize {
         match self {
             Task::Ret => 1,
-            Task::Emit(_, _, k) | Task::Notify(_, _, k) | Task::Req(_, _, _, k) | Task::Join(_, k) | Task::AbortT(_, k) | Task::Yield(_, k) => 1 + k.size(),
+            Task::Emit(_, _, k) | Task::Notify(_, _, k) | Task::Req(_, _, _, k) | Task::Join(_, k) | Task::AbortT(_, k) | Task::Yield(_, k) | Task::AbortC(_, k) => 1 + k.size(),
             Task::Both(_, _, _, _, _, _, k) | Task::Race(_, _, _, _, _, k) => 2 + k.size(),
             Task::ForEach(_, _, _, b, k) | Task::Spawn(b, _, k) => 1 + b.size() + k.size(),
         }
@@ -96,7 +98,7 @@ impl Task {
         let (name, subs): (&'static str, Vec<&Task>) = match self {
             Task::Ret => ("TRet", vec![]), Task::Emit(_, _, k) => ("TEmit", vec![k]), Task::Notify(_, _, k) => ("TNotify", vec![k]),
             Task::Req(_, _, _, k) => ("TReq", vec![k]), Task::ForEach(_, _, _, b, k) => ("TForEach", vec![b, k]),
-            Task::Spawn(b, _, k) => ("TSpawn", vec![b, k]), Task::Join(_, k) => ("TJoin", vec![k]), Task::AbortT(_, k) => ("TAbortT", vec![k]), Task::Yield(_, k) => ("TYield", vec![k]),
+            Task::Spawn(b, _, k) => ("TSpawn", vec![b, k]), Task::Join(_, k) => ("TJoin", vec![k]), Task::AbortT(_, k) => ("TAbortT", vec![k]), Task::Yield(_, k) => ("TYield", vec![k]), Task::AbortC(_, k) => ("TAbortC", vec![k]),
             Task::Both(_, _, _, _, _, _, k) => ("TBoth", vec![k]), Task::Race(_, _, _, _, _, k) => ("TRace", vec![k]),
         };
         *h.entry(name).or_default() += 1;
@@ -199,7 +201,7 @@ struct JH { abort: Arc<dyn Fn() + Send + Sync>, join: Arc<dyn Fn() -> BoxFuture<
 struct Env { vars: Vec<u64>, handles: HashMap<usize, JH> }
 impl Env { fn set(&mut self, x: usize, v: u64) { while self.vars.len() <= x { self.vars.push(0); } self.vars[x] = v; } }
 
-fn exec<'a>(t: &'a Task, env: &'a mut Env, ctx: &'a Ctx) -> BoxFuture<'a, ()> {
+fn exec<'a>(t: &'a Task, env: &'a mut Env, ctx: &'a Ctx, aborts: &'a Aborts) -> BoxFuture<'a, ()> {
     async move {
         let mut cur = t;
         loop {
@@ -210,19 +212,21 @@ fn exec<'a>(t: &'a Task, env: &'a mut Env, ctx: &'a Ctx) -> BoxFuture<'a, ()> {
                 Task::Req(tg, e, x, k) => { let out = ctx.request_from_shell(Op { tag: *tg, val: e.eval(&env.vars) }).await; env.set(*x, out); cur = k; }
                 Task::ForEach(tg, e, x, body, k) => {
                     let mut stream = ctx.stream_from_shell(Op { tag: *tg, val: e.eval(&env.vars) });
-                    while let Some(out) = stream.next().await { env.set(*x, out); exec(body, env, ctx).await; }
+                    while let Some(out) = stream.next().await { env.set(*x, out); exec(body, env, ctx, aborts).await; }
                     drop(stream);
                     cur = k;
                 }
                 Task::Spawn(child, h, k) => {
                     let child = (**child).clone(); let mut cenv = env.clone();
-                    let jh = ctx.spawn(move |cctx| async move { exec(&child, &mut cenv, &cctx).await });
+                    let ab = aborts.clone();
+                    let jh = ctx.spawn(move |cctx| async move { exec(&child, &mut cenv, &cctx, &ab).await });
                     let (j1, j2) = (jh.clone(), jh);
                     env.handles.insert(*h, JH { abort: Arc::new(move || j1.abort()), join: Arc::new(move || j2.clone().boxed()) }); cur = k;
                 }
                 Task::Join(h, k) => { if let Some(jh) = env.handles.get(h) { let f = (jh.join)(); f.await; } cur = k; }
                 Task::AbortT(h, k) => { if let Some(jh) = env.handles.get(h) { (jh.abort)(); } cur = k; }
                 Task::Yield(n, k) => { YieldN(*n).await; cur = k; }
+                Task::AbortC(n, k) => { for (m, h) in aborts.lock().unwrap().iter() { if m == n { h(); } } cur = k; }
                 Task::Both(t1, e1, x1, t2, e2, x2, k) => {
                     let f1 = ctx.request_from_shell(Op { tag: *t1, val: e1.eval(&env.vars) });
                     let f2 = ctx.request_from_shell(Op { tag: *t2, val: e2.eval(&env.vars) });
@@ -269,10 +273,12 @@ fn build(c: &Cmd, env0: &Env, aborts: &Aborts) -> C {
     match c {
         Cmd::New(m, ex) => {
             let (m, e) = (m.clone(), env0.clone());
-            let mut cmd = C::new(move |ctx| async move { let mut e = e; exec(&m, &mut e, &ctx).await });
+            let ab = aborts.clone();
+            let mut cmd = C::new(move |ctx| async move { let mut e = e; exec(&m, &mut e, &ctx, &ab).await });
             for t in ex {
                 let (t, e) = (t.clone(), env0.clone());
-                cmd.spawn(move |ctx| async move { let mut e = e; exec(&t, &mut e, &ctx).await });
+                let ab = aborts.clone();
+                cmd.spawn(move |ctx| async move { let mut e = e; exec(&t, &mut e, &ctx, &ab).await });
             }
             cmd
         }
@@ -317,6 +323,7 @@ impl Gen {
             16..=17 => { let t1 = self.tag(); let t2 = self.tag(); let e1 = self.expr(nvars); let e2 = self.expr(nvars);
                     let x = (self.rng.below((nvars as u64 + 1).min(8))) as usize; *budget -= 1;
                     Task::Race(t1, e1, t2, e2, x, Box::new(self.task(budget, nvars.max(x + 1), handles, depth))) }
+            35..=37 if !self.legacy => { let n = 1 + self.rng.below(3); Task::AbortC(n, Box::new(self.task(budget, nvars, handles, depth))) }
             18..=37 => { let t = self.evtag(); let e = self.expr(nvars); Task::Emit(t, e, Box::new(self.task(budget, nvars, handles, depth))) }
             38..=45 => { let t = self.tag(); let e = self.expr(nvars); Task::Notify(t, e, Box::new(self.task(budget, nvars, handles, depth))) }
             46..=63 => { let t = self.tag(); let e = self.expr(nvars); let x = (self.rng.below((nvars as u64 + 1).min(8))) as usize;
@@ -722,7 +729,7 @@ mod legacy {
                         cur = k;
                     }
                     Task::Yield(n, k) => { YieldN(*n).await; cur = k; }
-                    Task::Join(_, k) | Task::AbortT(_, k) => { cur = k; }
+                    Task::Join(_, k) | Task::AbortT(_, k) | Task::AbortC(_, k) => { cur = k; }
                     Task::Both(_, _, _, _, _, _, k) | Task::Race(_, _, _, _, _, k) => { cur = k; }
                 }
             }
